@@ -36,6 +36,9 @@ pub enum Op {
     /// replace the document's text (new word selection)
     Change { doc: u8, words: Vec<u8> },
     Restart,
+    /// the user edits the user-dictionary file by hand: 0 flip the case of the first letter of one
+    /// word, 1 append a vocabulary word (no trailing newline), 2 remove a word
+    EditDictFile { kind: u8, sel: u16 },
 }
 
 #[derive(Debug, Clone, Serialize, Deserialize, PartialEq, Eq, Hash)]
@@ -316,6 +319,67 @@ fn history(c: &DictCase, ctx: &mut CaseCtx, _allow_case_variants: bool) -> Resul
                     }
                 }
             }
+            Op::EditDictFile { kind, sel } => {
+                let mut words: Vec<String> = user.iter().cloned().collect();
+                match kind % 3 {
+                    0 if !words.is_empty() => {
+                        let i = pick_idx(*sel, words.len());
+                        let mut c: Vec<char> = words[i].chars().collect();
+                        if c[0].is_lowercase() {
+                            c[0] = c[0].to_uppercase().next().unwrap_or(c[0]);
+                        } else {
+                            c[0] = c[0].to_lowercase().next().unwrap_or(c[0]);
+                        }
+                        let new: String = c.into_iter().collect();
+                        if words.iter().any(|w| w.to_lowercase() == new.to_lowercase() && *w != words[i]) {
+                            continue;
+                        }
+                        words[i] = new;
+                    }
+                    1 => {
+                        let w = vocab((*sel % 251) as u8).to_string();
+                        if words.iter().chain(file.values().flatten()).any(|x| x.to_lowercase() == w.to_lowercase()) {
+                            continue;
+                        }
+                        words.push(w);
+                    }
+                    2 if !words.is_empty() => {
+                        words.remove(pick_idx(*sel, words.len()));
+                    }
+                    _ => continue,
+                }
+                let mut content = words.join("\n");
+                if kind % 3 != 1 && !content.is_empty() {
+                    content.push('\n');
+                }
+                let _ = std::fs::create_dir_all(s.sb.user_dict().parent().unwrap());
+                if std::fs::write(s.sb.user_dict(), content).is_err() {
+                    fail!("cannot write dictionary file");
+                }
+                user = words.into_iter().collect();
+                ctx.class("dictionary_file_edited_by_hand");
+                // subsequently checked text ...
+                for j in 0..n {
+                    s.relint(j)?;
+                    if let Err(e) = check_doc(&s, j, &user, &file) {
+                        fail!("step {step} (after editing the dictionary file): {e}");
+                    }
+                }
+                // ... agrees with what a restarted server reports
+                let before: Vec<Vec<String>> = s.diags.iter().map(|d| keys(d)).collect();
+                if let Some(srv) = s.srv.take() {
+                    srv.shutdown()?;
+                }
+                s.start()?;
+                for j in 0..n {
+                    if keys(&s.diags[j]) != before[j] {
+                        fail!(
+                            "step {step}: after the dictionary file was edited to {:?} the running server reports {:?} for document {j}, a restarted server {:?}",
+                            user, before[j], keys(&s.diags[j])
+                        );
+                    }
+                }
+            }
             Op::Restart => {
                 let before: Vec<Vec<String>> = s.diags.iter().map(|d| keys(d)).collect();
                 if let Some(srv) = s.srv.take() {
@@ -376,6 +440,7 @@ fn history_strategy_inner(max_ops: usize) -> BoxedStrategy<DictCase> {
                 3 => (0u8..3, any::<u16>()).prop_map(|(doc, sel)| Op::AddFile { doc, sel }),
                 2 => (0u8..3, words()).prop_map(|(doc, words)| Op::Change { doc, words }),
                 1 => Just(Op::Restart),
+                2 => (0u8..3, any::<u16>()).prop_map(|(kind, sel)| Op::EditDictFile { kind, sel }),
             ],
             1..max_ops,
         ),
@@ -739,6 +804,7 @@ pub fn run(run: &mut Run) {
     run.require_class("lsp_histories", "file_dictionary_used", (n / 4) as u64);
     run.require_class("lsp_histories", "non_ascii_word_added", (n / 10) as u64);
     run.require_class("lsp_histories", "preseeded_file_without_trailing_newline", (n / 10) as u64);
+    run.require_class("lsp_histories", "dictionary_file_edited_by_hand", (n / 5) as u64);
 
     // crash enumeration: small and >8 KiB dictionaries, user and file dictionaries
     let mut cases = vec![
